@@ -186,7 +186,7 @@ func TestReplay(t *testing.T) {
 		scratch = os.TempDir()
 	}
 	pfx := "pool:"
-	var diverged, lockstepDiffs, classDiffs int64
+	var diverged, lockstepDiffs, classDiffs, nonceAfterRo int64
 	cnt := newCounter()
 	checkPrefix := mbt.EnvInt("POOL_STRIDE", 1) > 1 || mbt.EnvInt("POOL_LIMIT", 0) > 0
 	cases := newTally()
@@ -333,13 +333,29 @@ func TestReplay(t *testing.T) {
 					return
 				}
 			}
+			// pool.Nonce(addr) of every account is an observed part of the state: it must be what the transcribed
+			// pendingNonces map of the specification holds in one of the allowed outcomes with this content
+			okN := false
+			for i := range l.O {
+				so := l.O[i].O.obs()
+				okN = okN || (so.content() == o.content() && fmt.Sprint(so.N) == fmt.Sprint(o.N))
+			}
+			if !okN {
+				var want []string
+				for i := range l.O {
+					want = append(want, fmt.Sprint(l.O[i].O.N))
+				}
+				res.Mismatch(pfx+"nonce:"+st.Op,
+					fmt.Sprintf("[%s] after %v pool.Nonce per account is %v; the specification's pendingNonces map holds %v (pool: %s)", c.Tag, l.H, o.N, want, o.content()),
+					detail(k, map[string]interface{}{"real": o, "allowed": l.O}))
+				return
+			}
 			if !okAll {
 				cnt.add(&lockstepDiffs)
 				res.Set("first_lockstep_diff", fmt.Sprintf("[%s] %v: real %s %s, specified %v", c.Tag, l.H, got, o.lockstep(), l.O))
 			}
-			if msg := s.nonceTracks(o); msg != "" {
-				cnt.add(&lockstepDiffs)
-				res.Set("first_nonce_diff", fmt.Sprintf("[%s] %v: %s", c.Tag, l.H, msg))
+			if s.nonceAfterRo > 0 {
+				cnt.add(&nonceAfterRo)
 			}
 		}
 		res.Count(1)
@@ -371,4 +387,7 @@ func TestReplay(t *testing.T) {
 	res.Set("diverged_"+c.Tag, cnt.get(&diverged))
 	res.Set("lockstep_diffs_"+c.Tag, cnt.get(&lockstepDiffs))
 	res.Set("class_diffs_"+c.Tag, cnt.get(&classDiffs))
+	if n := cnt.get(&nonceAfterRo); n > 0 {
+		res.Set("nonce_relation_broken_after_reorg_"+c.Tag, n)
+	}
 }
